@@ -1006,7 +1006,7 @@ def run(chk):
     chk.assumptions = ["value identity of a snapshot: container kinds, list order, dictionary content (key order ignored), leaf types and values, library objects by class and inner dictionary",
                        "stores, sinks and factories are receivers that change by design; they are not counted as arguments",
                        "a change the caller makes to its own container between calls is the caller's business (counted, never reported)"]
-    res = chk.add_tlc("S1_frame", tlc.run("Frame", "MC_Frame", workers=16, scratch=chk.scratch))
+    res = chk.add_tlc("S1_frame", tlc.run("Frame", "MC_Frame", workers=16, scratch=chk.scratch, coverage=True))
     if not res.completed:
         chk.spec_violation("S1_frame", res)
     neg = tlc.run("Neg_Frame", "Neg_Frame", workers=4, scratch=chk.scratch)
